@@ -89,6 +89,26 @@ def match_table(prog: Program) -> RuleResult:
             return "A"
         raise AnalysisError(f"MATCH-TABLE: type-filter rule compares {t}")
 
+    # The decision is a function of this pattern (the type it names, the attribute it constrains).  A decision read from a module-level
+    # collection is the decision of whichever pattern was built first over that key - the second pattern on the same attribute, naming a
+    # subclass, inherits "no filter needed" from a first one that named the declared type.
+    import re as _re
+
+    gmod = g.module
+    shared = {}
+    for st in gmod.tree.body:
+        tg = st.targets[0] if isinstance(st, ast.Assign) and len(st.targets) == 1 else (st.target if isinstance(st, ast.AnnAssign) else None)
+        if isinstance(tg, ast.Name) and getattr(st, "value", None) is not None and isinstance(st.value, (ast.Dict, ast.Set, ast.List, ast.Call, ast.DictComp, ast.SetComp, ast.ListComp)):
+            shared[tg.id] = st
+    read = sorted({nm for val, _, _ in paths for atom in val for part in atom if isinstance(part, str) for nm in _re.findall(r"[A-Za-z_][A-Za-z_0-9]*", part) if nm in shared})
+    if not read:
+        # ... or stored there by the method itself (membership tested with `in` shows up as an atom; a try / setdefault spelling does not)
+        read = sorted({y.id for y in ast.walk(g.node) if isinstance(y, ast.Name) and y.id in shared and not isinstance(shared[y.id].value, ast.Call)})
+    r.check(not read, "AttributeAssignment.is_type_filter_needed#decided-from-the-pattern", site(g), ", ".join(read), "the decision reads the pattern and the class diagram only",
+            f"whether a nested match needs its type filter is looked up in the module-level `{read[0] if read else ''}`, written by the patterns built before: "
+            "match(Part) on an attribute stores 'no filter', and a later match(Wheel) on the same attribute is built without its HasType condition and returns elements whose value is a Door")
+    if read:
+        return r
     # relation between the pattern's type P and the attribute's declared type A
     RELS = {"same": dict(P_le_A=True, A_le_P=True), "pattern-is-subtype": dict(P_le_A=True, A_le_P=False),
             "pattern-is-supertype": dict(P_le_A=False, A_le_P=True), "unrelated": dict(P_le_A=False, A_le_P=False)}
